@@ -362,4 +362,111 @@ Proof.
   exists m3; split; auto. eapply msp_ext; [exact H3|]. intros i j Hi Hj. bdestr.
 Qed.
 
+
+(* ---------- swap_elem / swap_rows ---------- *)
+Lemma swap_elem_msp r c f m r1 c1 r2 c2 : msp r c f m -> r1 < r -> c1 < c -> r2 < r -> c2 < c ->
+  exists m', swap_elem m r1 c1 r2 c2 = Ok m' /\
+    msp r c (fun i j => if (i =? r1) && (j =? c1) then f r2 c2
+                        else if (i =? r2) && (j =? c2) then f r1 c1 else f i j) m'.
+Proof.
+  intros Hm H1 H2 H3 H4. unfold swap_elem.
+  rewrite (mget_msp r c f m r1 c1 Hm H1 H2), (mget_msp r c f m r2 c2 Hm H3 H4). cbn [bind].
+  destruct (mset_msp r c f m r2 c2 (f r1 c1) Hm H3 H4) as (m1 & E1 & Hm1). rewrite E1; cbn [bind].
+  destruct (mset_msp r c _ m1 r1 c1 (f r2 c2) Hm1 H1 H2) as (m2 & E2 & Hm2).
+  exists m2; split; [exact E2|exact Hm2].
+Qed.
+
+Lemma swap_rows_msp r c f m r1 r2 : msp r c f m -> r1 < r -> r2 < r ->
+  exists m', swap_rows m r1 r2 = Ok m' /\
+    msp r c (fun i j => if i =? r1 then f r2 j else if i =? r2 then f r1 j else f i j) m'.
+Proof.
+  intros Hm H1 H2. pose proof Hm as (Hw & Hr & Hc & He). unfold swap_rows. rewrite Hr, Hc.
+  destruct (Nat.leb_spec r r1) as [Hx|_]; [lia|]. destruct (Nat.leb_spec r r2) as [Hx|_]; [lia|]. cbn [orb].
+  destruct (for_msp r c (fun k i j => if j <? k then (if i =? r1 then f r2 j else if i =? r2 then f r1 j else f i j) else f i j)
+              0 c (fun j s => swap_elem s r1 j r2 j) m) as (m' & E & Hm'); [lia| | |].
+  - eapply msp_ext; [exact Hm|]. intros; bdestr.
+  - intros k s Hk Hs.
+    destruct (swap_elem_msp r c _ s r1 k r2 k Hs H1 (proj2 Hk) H2 (proj2 Hk)) as (s' & E' & Hs').
+    exists s'; split; auto. eapply msp_ext; [exact Hs'|]. intros i j Hi Hj. bdestr.
+  - exists m'; split; [exact E|]. eapply msp_ext; [exact Hm'|]. intros; bdestr.
+Qed.
+
+Lemma swap_rows_guard (m : matrix) r1 r2 : rows m <= r1 \/ rows m <= r2 -> swap_rows m r1 r2 = Panic Guard.
+Proof.
+  intros H; unfold swap_rows.
+  destruct (Nat.leb_spec (rows m) r1); destruct (Nat.leb_spec (rows m) r2); cbn [orb]; auto; lia.
+Qed.
+
+(* ---------- delete_row ---------- *)
+Lemma nth_firstn_lt {X} (l : list X) a k d : k < a -> nth k (firstn a l) d = nth k l d.
+Proof.
+  revert a k; induction l as [|h t IH]; intros [|a] [|k] H; cbn; auto; try lia. apply IH; lia.
+Qed.
+
+Lemma nth_skipn_add {X} (l : list X) b k d : nth k (skipn b l) d = nth (b + k) l d.
+Proof.
+  revert l; induction b as [|b IH]; intros [|h t]; cbn; auto. now destruct k.
+Qed.
+
+Lemma nth_cut {X} (l : list X) a b k d : a <= b -> b <= length l ->
+  nth k (firstn a l ++ skipn b l) d = if k <? a then nth k l d else nth (k + (b - a)) l d.
+Proof.
+  intros Hab Hb. assert (Hl : length (firstn a l) = a) by (apply firstn_length_le; lia).
+  destruct (Nat.ltb_spec k a).
+  - rewrite app_nth1 by lia. now apply nth_firstn_lt.
+  - rewrite app_nth2 by lia. rewrite Hl, nth_skipn_add. f_equal; lia.
+Qed.
+
+Lemma delete_row_msp r c f m row : msp r c f m -> row < r ->
+  exists m', delete_row m row = Ok m' /\
+    msp (r - 1) c (fun i j => if i <? row then f i j else f (S i) j) m'.
+Proof.
+  intros Hm Hrow. pose proof Hm as (Hw & Hr & Hc & He). unfold delete_row. rewrite Hr, Hc.
+  destruct (Nat.leb_spec r row) as [Hx|_]; [lia|].
+  assert (Hlen : (row + 1) * c <= length (buf m)).
+  { rewrite Hw, Hr, Hc. apply Nat.mul_le_mono_r. lia. }
+  destruct (Nat.leb_spec ((row + 1) * c) (length (buf m))) as [_|Hx]; [|lia].
+  eexists; split; [reflexivity|].
+  unfold msp, wf, entry; cbn [buf rows cols]. repeat split; auto.
+  - rewrite app_length, firstn_length_le, skipn_length by nia. rewrite Hw, Hr, Hc. nia.
+  - intros i j Hi Hj. rewrite nth_cut by nia.
+    assert (Hi' : i < r) by lia.
+    destruct (Nat.ltb_spec i row); destruct (Nat.ltb_spec (i * c + j) (row * c)); try nia.
+    + specialize (He i j Hi' Hj). unfold entry in He. now rewrite Hc in He.
+    + assert (HS : S i < r) by lia. specialize (He (S i) j HS Hj). unfold entry in He.
+      rewrite Hc in He. rewrite <- He. f_equal. nia.
+Qed.
+
+Lemma delete_row_guard (m : matrix) row : rows m <= row -> delete_row m row = Panic Guard.
+Proof. intros H; unfold delete_row. now destruct (Nat.leb_spec (rows m) row); [|lia]. Qed.
+
+(* ---------- resize ---------- *)
+Lemma resize_msp r c f m nr nc : msp r c f m ->
+  exists m', resize m nr nc = Ok m' /\
+    msp nr nc (fun i j => if (i <? r) && (j <? c) then f i j else zero) m'.
+Proof.
+  intros Hm. pose proof Hm as (Hw & Hr & Hc & He). unfold resize. rewrite Hr, Hc.
+  destruct (for_msp nr nc (fun k i j => if (i <? k) && ((i <? r) && (j <? c)) then f i j else zero) 0 nr
+     (fun i s => for_ 0 nc (fun j s =>
+        if (i <? r) && (j <? c) then let* x := mget m i j in mset s i j x else Ok s) s)
+     (mat_new nr nc zero)) as (m' & E & Hm'); [lia| | |].
+  - eapply msp_ext; [apply msp_new|]. intros; bdestr.
+  - intros k s Hk Hs.
+    destruct (for_msp nr nc
+       (fun q i j => if ((i <? k) || ((i =? k) && (j <? q))) && ((i <? r) && (j <? c)) then f i j else zero) 0 nc
+       (fun j s => if (k <? r) && (j <? c) then let* x := mget m k j in mset s k j x else Ok s) s)
+      as (s' & E' & Hs'); [lia| | |].
+    + eapply msp_ext; [exact Hs|]. intros; bdestr.
+    + intros q t Hq Ht.
+      destruct (Nat.ltb_spec k r) as [Hkr|Hkr]; cbn [andb].
+      * destruct (Nat.ltb_spec q c) as [Hqc|Hqc].
+        -- rewrite (mget_msp r c f m k q Hm Hkr Hqc). cbn [bind].
+           destruct (mset_msp nr nc _ t k q (f k q) Ht (proj2 Hk) (proj2 Hq)) as (t' & Et & Ht').
+           exists t'; split; auto. eapply msp_ext; [exact Ht'|]. intros i j Hi Hj. unfold upd_fn. bdestr.
+        -- exists t; split; auto. eapply msp_ext; [exact Ht|]. intros i j Hi Hj. bdestr.
+      * exists t; split; auto. eapply msp_ext; [exact Ht|]. intros i j Hi Hj. bdestr.
+    + exists s'; split; [exact E'|]. eapply msp_ext; [exact Hs'|]. intros; bdestr.
+  - exists m'; split; [exact E|]. eapply msp_ext; [exact Hm'|]. intros; bdestr.
+Qed.
+
 End MatProofs.
